@@ -5,7 +5,7 @@ set -eu
 cd "$(dirname "$0")"
 export GOFLAGS=-mod=mod GOPROXY=off
 mkdir -p .build logs evidence
-cp -f /repo/go/go.sum harness/go.sum
+[ -f harness/go.sum ] || cp -f /repo/go/go.sum harness/go.sum
 for d in harness/cmd/*/; do
   e=$(basename "$d")
   ( cd harness && go build -trimpath -tags verif -o "../.build/$e" "./cmd/$e" )
